@@ -18,6 +18,7 @@
 #include <string>
 #include <tuple>
 #include <vector>
+#include <thread>
 #include <algorithm>
 
 using namespace tbb::flow;
@@ -274,6 +275,33 @@ struct LimScenario : Scenario {
             nested.clear();
             g.wait_for_all();
             return S(r) + " ; " + join_strs(g_dl, " ") + " ; " + st();
+        }
+        // put2 v1 v2 d...: while v1 is being offered to the first successor (put 1 is between its admission and its
+        // completion region), a second thread puts v2 (it is admitted or refused, then waits for the successor
+        // cache), then the nested decrements are sent, then put 1 completes, then put 2 proceeds.
+        if (w[0] == "put2" && w.size() >= 3 && to_ll(w[1], a) && to_ll(w[2], b)) {
+            if (rs.empty()) return "bad-op";
+            nested.clear();
+            for (size_t i = 3; i < w.size(); ++i) { long long d; if (!to_ll(w[i], d, true)) return "bad-op"; nested.push_back(d); }
+            bool r2 = false; std::atomic<bool> done2{false};
+            std::thread t2;
+            auto saved = rs[0]->on_offer;
+            bool fired = false;
+            rs[0]->on_offer = [&]() {
+                if (fired) return;                       // only the first offer (of v1) triggers the second put
+                fired = true;
+                size_t tries0 = *(volatile size_t*)&node.my_tries;
+                t2 = std::thread([&]() { r2 = node.try_put((int)b); done2 = true; });
+                while (!done2.load() && *(volatile size_t*)&node.my_tries == tries0) std::this_thread::yield();
+                std::vector<long long> ds; ds.swap(nested);
+                for (long long d : ds) node.decrementer().try_put((int)d);
+            };
+            bool r1 = node.try_put((int)a);
+            if (t2.joinable()) t2.join();
+            rs[0]->on_offer = saved;
+            nested.clear();
+            g.wait_for_all();
+            return S(r1) + "," + S(r2) + " ; " + join_strs(g_dl, " ") + " ; " + st();
         }
         return "bad-op";
     }
